@@ -60,6 +60,7 @@ def check_levels(ctx: Ctx):
         return ok, guarded
 
     guarded_all = True
+    floats = {}
     for nm, red in want.items():
         ok, where = False, fi
         for s in fv.statements():
@@ -68,6 +69,11 @@ def check_levels(ctx: Ctx):
                 g = si.guards(s)
                 okg = any(p and (cp := compare_parts(t)) and U(cp[0]) == nm and isinstance(cp[1], ast.Is) and isinstance(cp[2], ast.Constant) and cp[2].value is None for t, p in g)
                 v = s.value
+                as_float = False
+                while isinstance(v, ast.Call) and U(v.func) in ("float", "np.float64", "np.double") and len(v.args) == 1 and not v.keywords:
+                    v = v.args[0]
+                    as_float = True
+                floats[nm] = as_float
                 src = None
                 if isinstance(v, ast.Call) and U(v.func) in (f"np.{red}", f"np.a{red}", f"numpy.{red}") and len(v.args) == 1 and not v.keywords:
                     src = v.args[0]
@@ -79,6 +85,11 @@ def check_levels(ctx: Ctx):
                     ok = oks and okg
         ctx.decide(ok, "LEVELS", f"{site}:{nm}", (fi, where), f"automatic {nm} = {red} over the fitted region, only when `{nm} is None`",
                    f"automatic level `{nm}` is not the {red} over the fitted region guarded by `{nm} is None`")
+    # the automatic levels are numpy scalars of the image's dtype: the range vmax − vmin and the bounds vmin − vrng are computed
+    # with them, so they are converted to float first (bool images: `-` raises; unsigned images: vmin − vrng wraps around)
+    ctx.decide(bool(floats) and all(floats.values()), "LEVELS", site + ":dtype", fi, "automatic levels are converted to float before they enter the arithmetic of the fit",
+               f"automatic level(s) {sorted(k for k, v_ in floats.items() if not v_)} keep the image's dtype: for a boolean image `vmax - vmin` raises TypeError, for an unsigned integer image the bound "
+               "`vmin - vrng` wraps around and least_squares rejects the start vector — locate_droplets(refine=True, refine_args={'vmin': None, 'vmax': None}) aborts on such images")
     # a candidate smaller than a cell covers no support point: the region is empty and a bare min/max over it raises
     ctx.decide(guarded_all, "LEVELS", site + ":empty-region", fi, "the automatic levels are defined for an empty fitted region as well (taken from the whole image then)",
                "the automatic levels are np.min/np.max over the fitted region only: for a candidate that covers no support point (radius below half a cell between cell centres) the region is empty and "
@@ -219,7 +230,7 @@ def check(ctx: Ctx):
     ctx.expect("MODEL", 2)
     ctx.expect("AFFINE", 2)
     ctx.expect("FEASIBLE", 2)
-    ctx.expect("LEVELS", 5)
+    ctx.expect("LEVELS", 6)
     ctx.expect("NONETEST", 1)
     ctx.expect("WRAP", 1)
     ctx.expect("EFFECT", 3)
